@@ -151,7 +151,11 @@ def handle (st : Driver.St) (op : String) (args : List String) (_impl : Option S
     | _, _, _, _ => some (st, { model := "bad-args" })
   | "hist", [_, evs] | "race", [_, evs] =>
     let sim := (evs.splitOn ";").foldl event {}
-    some (st, { model := ",".intercalate sim.out, spec := sim.bad.getD "ok" })
+    -- the keys the cache holds when every query has finished, as the model renders them
+    let keys := if sim.live.isEmpty then
+        "+".intercalate ((sim.st.cache.map fun e => hexOut e.1).toArray.qsort (· < ·)).toList
+      else "?"
+    some (st, { model := ",".intercalate sim.out ++ "|keys=" ++ keys, spec := sim.bad.getD "ok" })
   | _, _ => none
 
 end Driver.C12
